@@ -419,6 +419,32 @@ def gen_nested_case(rng: random.Random):
     return dict(n=n, types=types, grp=grp, edges=edges, until=until, beh=beh, init=init, maxloop=rng.choice([100, 100, 8]))
 
 
+def gen_fanin_case(rng: random.Random):
+    """fan-in: three or four producers, each with one to three connections of different delays (plain, time-shifted by
+    1 or 2) into distinct slots of ONE consumer, so that many entries for two or three different due times are in the
+    consumer's timed input buffer at once and reach it in many different orders; outputs at every step, output times
+    never go back, no initial data on event sources (inside the data-flow hypotheses of C03)"""
+    np_ = rng.choice([3, 3, 4])
+    n = np_ + 1; dst = np_
+    types = ['hybrid'] * np_ + ['hybrid']
+    grp = [[] for _ in range(n)] if rng.random() < 0.7 else [[0] for _ in range(n)]
+    slots = [('po', 'i'), ('eo', 'ti'), ('e2', 't2')]
+    edges = []
+    for a in range(np_):
+        k = rng.choice([1, 2, 3, 3])
+        for (sa, da) in rng.sample(slots, k):
+            kind = rng.choice(['p', 'p', 'ts', 'ts'])
+            shift = rng.choice([1, 1, 2]) if kind == 'ts' else 0
+            edges.append(dict(a=a, b=dst, sa=sa, da=da, kind=kind, shift=shift, init=bool(kind == 'ts' and da == 'i')))
+    until = rng.randint(3, 5)
+    beh = []
+    for i in range(n):
+        ss = {str(tt): tt + 1 for tt in range(until)} if i < np_ else {str(tt): tt + 1 for tt in range(until) if rng.random() < 0.7}
+        outs = {f'{tt},0': [None, ['po', 'eo', 'e2']] for tt in range(until + 1)}
+        beh.append({'type': 'hybrid', 'self_steps': ss, 'outputs': outs, 'default_output': [None, ['po']]})
+    return dict(n=n, types=types, grp=grp, edges=edges, until=until, beh=beh, init=[], maxloop=100)
+
+
 def gen_lazy_case(rng: random.Random):
     """run-ahead stress for lazy stepping: producers that could run far ahead of their (slow) direct consumers; each
     producer-consumer pair is joined by exactly one connection - plain, time-shifted or weak (inside a common group, with
